@@ -84,18 +84,16 @@ fn same<R: Rep, const X: usize>(d: &R, n: usize, m: &[[bool; X]; X]) {
     assert!(d.size() == size, "size of the result");
 }
 
-fn symbolic_threads(pmax: usize) -> usize {
-    let p = nd::below(pmax) + 1;
-
-    cx::set_parallelism(p);
-
-    p
+fn symbolic_threads(cfg: usize) -> usize {
+    cx::threads(cfg)
 }
 
-pub fn complement<R: Rep + Complement, const N: usize>(pmax: usize) {
+pub fn complement<R: Rep + Complement, const N: usize>(cfg: usize) {
+    let pmax = cx::threads_max(cfg);
+
     cx::set_vcap(N.max(pmax) + 1);
 
-    let p = symbolic_threads(pmax);
+    let p = symbolic_threads(cfg);
     let g = G::<N>::any();
     let d = build::<R, N>(&g);
     let before = d.clone();
@@ -114,8 +112,8 @@ pub fn complement<R: Rep + Complement, const N: usize>(pmax: usize) {
     let cc = c.complement();
 
     assert!(cc == d, "complement is an involution");
-    kani::cover!(p > N, "more threads than vertices");
-    kani::cover!(p > 1 && p < N, "fewer threads than vertices: chunks of several rows");
+    kani::cover!(cfg >= cx::EXACT || pmax <= N || p > N, "more threads than vertices");
+    kani::cover!(cfg >= cx::EXACT || pmax < 2 || N < 3 || (p > 1 && p < N), "fewer threads than vertices: chunks of several rows");
     core::mem::forget(d);
     core::mem::forget(before);
     core::mem::forget(c);
@@ -151,10 +149,12 @@ fn converse<R: Rep + Converse, const N: usize>() {
 }
 
 /// union of a digraph of order N and one of order M (X = max(N, M)).
-pub fn union<R: Rep + Union, const N: usize, const M: usize, const X: usize>(pmax: usize) {
+pub fn union<R: Rep + Union, const N: usize, const M: usize, const X: usize>(cfg: usize) {
+    let pmax = cx::threads_max(cfg);
+
     cx::set_vcap((2 * X).max(pmax) + 1);
 
-    let p = symbolic_threads(pmax);
+    let p = symbolic_threads(cfg);
     let g = G::<N>::any();
     let h = G::<M>::any();
     let d = build::<R, N>(&g);
@@ -175,8 +175,8 @@ pub fn union<R: Rep + Union, const N: usize, const M: usize, const X: usize>(pma
     let u2 = e.union(&d);
 
     assert!(u1 == u2, "union is commutative");
-    kani::cover!(p > X, "more threads than rows");
-    kani::cover!(p == 2, "two threads");
+    kani::cover!(cfg >= cx::EXACT || pmax <= X || p > X, "more threads than rows");
+    kani::cover!(cfg >= cx::EXACT || pmax < 2 || p == 2, "two threads");
     core::mem::forget(d);
     core::mem::forget(e);
     core::mem::forget(d0);
@@ -185,10 +185,12 @@ pub fn union<R: Rep + Union, const N: usize, const M: usize, const X: usize>(pma
     core::mem::forget(u2);
 }
 
-fn union_idempotent<R: Rep + Union, const N: usize>(pmax: usize) {
+fn union_idempotent<R: Rep + Union, const N: usize>(cfg: usize) {
+    let pmax = cx::threads_max(cfg);
+
     cx::set_vcap((2 * N).max(pmax) + 1);
 
-    let _ = symbolic_threads(pmax);
+    let _ = symbolic_threads(cfg);
     let g = G::<N>::any();
     let d = build::<R, N>(&g);
     let u = d.union(&d);
@@ -334,24 +336,32 @@ fn map_noncontiguous(which: usize) {
     core::mem::forget(r);
 }
 
-// AdjacencyList::complement (threaded) on every digraph of order 3, thread count p symbolic in 1..=4.
+// AdjacencyList::complement (threaded) on every digraph of order 3 with 2 worker threads (chunks of 2 and 1 rows).
 // @verif prop=C11 tier=quick fl=f2 role=complement/adjacency-list t=1500 mem=14
 #[cfg_attr(kani, kani::proof)]
-#[cfg_attr(kani, kani::unwind(6))]
+#[cfg_attr(kani, kani::unwind(8))]
+pub fn c11_complement_adjacency_list_n3_t2() {
+    complement::<AdjacencyList, 3>(cx::EXACT + 2);
+}
+
+// The same with the thread count symbolic in 1..=4 (all chunkings in one query).
+// @verif prop=C11 tier=thorough fl=f2 role=complement/adjacency-list t=3600 mem=30
+#[cfg_attr(kani, kani::proof)]
+#[cfg_attr(kani, kani::unwind(8))]
 pub fn c11_complement_adjacency_list_n3_p4() {
     complement::<AdjacencyList, 3>(4);
 }
 
 // @verif prop=C11 tier=quick fl=f0 role=complement/matrix t=1200 mem=12
 #[cfg_attr(kani, kani::proof)]
-#[cfg_attr(kani, kani::unwind(5))]
+#[cfg_attr(kani, kani::unwind(8))]
 pub fn c11_complement_matrix_n3() {
     complement::<AdjacencyMatrix, 3>(1);
 }
 
 // @verif prop=C11 tier=quick fl=f1 role=complement/edge-list t=1200 mem=12
 #[cfg_attr(kani, kani::proof)]
-#[cfg_attr(kani, kani::unwind(5))]
+#[cfg_attr(kani, kani::unwind(8))]
 pub fn c11_complement_edge_list_n3() {
     complement::<EdgeList, 3>(1);
 }
@@ -365,21 +375,21 @@ pub fn c11_complement_adjacency_map_n3() {
 
 // @verif prop=C11 tier=quick fl=f2 role=converse/adjacency-list t=1200 mem=12
 #[cfg_attr(kani, kani::proof)]
-#[cfg_attr(kani, kani::unwind(5))]
+#[cfg_attr(kani, kani::unwind(8))]
 pub fn c11_converse_adjacency_list_n3() {
     converse::<AdjacencyList, 3>();
 }
 
 // @verif prop=C11 tier=quick fl=f0 role=converse/matrix t=1200 mem=12
 #[cfg_attr(kani, kani::proof)]
-#[cfg_attr(kani, kani::unwind(5))]
+#[cfg_attr(kani, kani::unwind(8))]
 pub fn c11_converse_matrix_n3() {
     converse::<AdjacencyMatrix, 3>();
 }
 
 // @verif prop=C11 tier=quick fl=f1 role=converse/edge-list t=1200 mem=12
 #[cfg_attr(kani, kani::proof)]
-#[cfg_attr(kani, kani::unwind(5))]
+#[cfg_attr(kani, kani::unwind(8))]
 pub fn c11_converse_edge_list_n3() {
     converse::<EdgeList, 3>();
 }
@@ -398,32 +408,46 @@ pub fn c11_converse_weighted_n3() {
     converse_weighted::<3>();
 }
 
-// AdjacencyList::union (threaded) of every order-2 with every order-3 digraph, p symbolic in 1..=4.
+// AdjacencyList::union (threaded) of every order-2 with every order-3 digraph, 2 worker threads.
 // @verif prop=C11 tier=quick fl=f2 role=union/adjacency-list t=1500 mem=14
 #[cfg_attr(kani, kani::proof)]
-#[cfg_attr(kani, kani::unwind(6))]
+#[cfg_attr(kani, kani::unwind(8))]
+pub fn c11_union_adjacency_list_n2_m3_t2() {
+    union::<AdjacencyList, 2, 3, 3>(cx::EXACT + 2);
+}
+
+// @verif prop=C11 tier=thorough fl=f2 role=union/adjacency-list t=3600 mem=30
+#[cfg_attr(kani, kani::proof)]
+#[cfg_attr(kani, kani::unwind(8))]
 pub fn c11_union_adjacency_list_n2_m3_p4() {
     union::<AdjacencyList, 2, 3, 3>(4);
 }
 
 // @verif prop=C11 tier=quick fl=f0 role=union/matrix t=1200 mem=12
 #[cfg_attr(kani, kani::proof)]
-#[cfg_attr(kani, kani::unwind(5))]
+#[cfg_attr(kani, kani::unwind(8))]
 pub fn c11_union_matrix_n2_m3() {
     union::<AdjacencyMatrix, 2, 3, 3>(1);
 }
 
 // @verif prop=C11 tier=quick fl=f1 role=union/edge-list t=1200 mem=12
 #[cfg_attr(kani, kani::proof)]
-#[cfg_attr(kani, kani::unwind(5))]
+#[cfg_attr(kani, kani::unwind(8))]
 pub fn c11_union_edge_list_n3_m2() {
     union::<EdgeList, 3, 2, 3>(1);
 }
 
-// AdjacencyMap::union (merge-path partitioning over threads), orders 2 and 2, p symbolic in 1..=4.
-// @verif prop=C11 tier=quick fl=f2 role=union/adjacency-map t=1800 mem=16
+// AdjacencyMap::union (merge-path partitioning over threads), orders 2 and 2, 2 worker threads.
+// @verif prop=C11 tier=quick fl=f2 feat=map4 role=union/adjacency-map t=1800 mem=16
 #[cfg_attr(kani, kani::proof)]
-#[cfg_attr(kani, kani::unwind(10))]
+#[cfg_attr(kani, kani::unwind(8))]
+pub fn c11_union_adjacency_map_n2_m2_t2() {
+    union::<AdjacencyMap, 2, 2, 2>(cx::EXACT + 2);
+}
+
+// @verif prop=C11 tier=thorough fl=f2 feat=map4 role=union/adjacency-map t=3600 mem=30
+#[cfg_attr(kani, kani::proof)]
+#[cfg_attr(kani, kani::unwind(8))]
 pub fn c11_union_adjacency_map_n2_m2_p4() {
     union::<AdjacencyMap, 2, 2, 2>(4);
 }
@@ -451,7 +475,7 @@ pub fn c11_converse_map_noncontiguous() {
 
 // @verif prop=C11 tier=thorough fl=f2 role=union-idempotent/adjacency-list t=1800 mem=16
 #[cfg_attr(kani, kani::proof)]
-#[cfg_attr(kani, kani::unwind(6))]
+#[cfg_attr(kani, kani::unwind(8))]
 pub fn c11_union_idempotent_adjacency_list_n3_p4() {
     union_idempotent::<AdjacencyList, 3>(4);
 }
